@@ -306,6 +306,12 @@ func scenarios() []*caseSpec {
 		c.allow = []string{fmtRSA, fmtRSA2, fmtRSA5}
 		add(c.h(qSignAs(A, kR, pr[0], pr[1]), qSign(A, kR)))
 	}
+	for _, pr := range [][2]string{{fmtRSA2, fmtRSA5}, {fmtRSA5, fmtRSA2}, {fmtRSA2, fmtRSA}} {
+		// the format the signature is really made with is excluded by the allow-list: no reading lets it pass
+		c := baseSpec(fmt.Sprintf("F rsa request names allowed %s, signature format %s not allowed", pr[0], pr[1]))
+		c.allow = []string{pr[0], fmtED}
+		add(c.h(qQuery(A, kR), qSignAs(A, kR, pr[0], pr[1]), qSignAs(A, kR, pr[0], pr[0])))
+	}
 	allowCases := []struct {
 		allow []string
 	}{{[]string{fmtED}}, {[]string{fmtECDSA}}, {[]string{fmtRSA2}}, {[]string{fmtRSA5, fmtED}}, {[]string{fmtRSA}}, {[]string{fmtRSA2, fmtECDSA, fmtED}}}
